@@ -185,7 +185,55 @@ def run_base(ctx, rng, base_text, base_toks, c, keys):
         v = file_history(ctx, base_text, same_len_rejected, c)
         if v:
             first_v = v
+    if first_v is None and rng.random() < 0.5:
+        first_v = byte_cases(ctx, rng, base_text, c)
     return first_v, sample
+
+
+BAD_BYTES = [b'\xff', b'\xa0', b'\xe9', b'\xfc\xdf', b'\xc3', b'\xe2\x82', b'\xed\xa0\x80', b'\xc0\xaf', b'\xf8\x88\x80\x80\x80',
+             b'\x80', b'\xfe\xff']
+
+
+def byte_cases(ctx, rng, base_text, c):
+    """source FILES are bytes: a file that is not valid UTF-8 is not a sentence of the grammar wherever the bad
+    bytes sit (inside a name, between tokens, inside a quoted atom or a comment): the file API must raise"""
+    import os
+    import tempfile
+    real = ctx['real']
+    raw = base_text.encode('utf8')
+    d = tempfile.mkdtemp(prefix='ypv-c10b-')
+    path = os.path.join(d, 'bytes.prolog')
+    try:
+        for _ in range(3):
+            bad = rng.choice(BAD_BYTES)
+            # cut only at character boundaries of the valid text, so that the inserted bytes are the only defect
+            pos = rng.randrange(len(base_text) + 1)
+            cut = len(base_text[:pos].encode('utf8'))
+            data = raw[:cut] + bad + raw[cut:]
+            try:
+                data.decode('utf8')
+                continue
+            except UnicodeDecodeError:
+                pass
+            with open(path, 'wb') as f:
+                f.write(data)
+            c['files_with_invalid_utf8'] = c.get('files_with_invalid_utf8', 0) + 1
+            try:
+                real.Cm.compile_prolog_from_file(path, Ctx)
+            except Exception:
+                continue
+            return {'kind': 'file_with_invalid_utf8_accepted', 'detail': {'bytes_inserted': repr(bad), 'at_byte': cut},
+                    'witness': {'text': base_text, 'bytes_inserted': repr(bad), 'at_byte': cut}}
+    finally:
+        try:
+            os.unlink(path)
+        except OSError:
+            pass
+        try:
+            os.rmdir(d)
+        except OSError:
+            pass
+    return None
 
 
 def file_history(ctx, base_text, bad_texts, c):
